@@ -71,6 +71,7 @@ def plan(tier, seed):
     n = 6000 if tier == 'quick' else 150000
     return ([{'kind': 'random', 'seed': seed, 'idx': i} for i in range(n)] +
             [{'kind': 'parallel-kill', 'seed': seed, 'idx': i} for i in range(40 if tier == 'quick' else 400)] +
+            [{'kind': 'long-history', 'seed': seed, 'idx': i} for i in range(40 if tier == 'quick' else 400)] +
             [{'kind': 'live', 'seed': seed, 'idx': i} for i in range(3 if tier == 'quick' else 30)])
 
 
@@ -79,6 +80,7 @@ def live_case(spec, res):
     from vlib import livehist
     rnd = rng_for(spec['seed'], 'C05-live', spec['idx'])
     ls = livehist.gen_spec(rnd, nsteps=5, stop_heavy=True)
+    ls['on_demand'] = spec['idx'] % 2 == 0
     rec = livehist.run(ls, strace=False, probe=True)
     if rec['problem']:
         res.inconclusive.append('live: ' + rec['problem'][:200])
@@ -99,6 +101,26 @@ def run_case(spec):
         return res
     if 'steps' in spec:
         run_history(spec, res)
+    elif spec.get('kind') == 'long-history':
+        # the same operation many times over, then an ordinary request: its bound does not depend on the past
+        rnd = rng_for(spec['seed'], 'C05-long', spec['idx'])
+        np_ = rnd.choice([1, 2, 3])
+        wu = rnd.choice([0.3, 1.0])
+        wconf = {'name': 'a', 'numprocesses': np_, 'graceful_timeout': rnd.choice([0.2, 1.0]), 'warmup_delay': wu,
+                 'singleton': False, 'beh': [{}]}
+        rep = rnd.choice([['call', 'reload', {'name': 'a', 'waiting': True}],
+                          ['call', 'restart', {'name': 'a', 'waiting': True}],
+                          ['call', 'reload', {'name': 'a', 'sequential': True, 'waiting': True}],
+                          ['call', 'incr', {'name': 'a', 'waiting': True}],
+                          ['call', 'kill', {'name': 'a', 'waiting': True}]])
+        last = rnd.choice([['req', 'incr', {'name': 'a', 'waiting': True}], ['req', 'decr', {'name': 'a', 'waiting': True}],
+                           ['req', 'restart', {'name': 'a', 'waiting': True}], ['req', 'stop', {'name': 'a', 'waiting': True}],
+                           ['req', 'reload', {'name': 'a', 'waiting': True}]])
+        steps = []
+        for _ in range(rnd.randint(4, 9)):
+            steps += [list(rep), ['settle', 60]]
+        run_history({'kill_latency': 0.0, 'watchers': [wconf], 'steps': steps + [last, ['adv', 0.1]]}, res)
+        res.obs['long_history_cases'] += 1
     elif spec.get('kind') == 'parallel-kill':
         # several workers that all sit out the whole grace period: the applicable timeout is one graceful_timeout
         # (+ warmups), not one per worker
